@@ -45,7 +45,7 @@ pub fn parse_opts(o: &str) -> SliceOptions {
 }
 
 pub fn show_span(s: Option<&slicec::slice_file::Span>) -> String {
-    match s { Some(s) => format!("{}:{}:{}-{}:{}", s.file, s.start.row, s.start.col, s.end.row, s.end.col), None => "-".into() }
+    match s { Some(s) => format!("{}@{}:{}-{}:{}", hexs(&s.file), s.start.row, s.start.col, s.end.row, s.end.col), None => "-".into() }
 }
 
 pub fn show_diags(diags: &[slicec::diagnostics::Diagnostic]) -> String {
@@ -66,4 +66,38 @@ pub fn diags(toks: &[&str]) -> String {
     let state = compile_from_strings(&refs, Some(&options));
     let d = state.diagnostics.into_updated(&state.ast, &state.files, &options);
     show_diags(&d)
+}
+
+/// emit <json|human> <opts> (<hexname>:<hextext>)...  ->  hex of what DiagnosticEmitter wrote (colours disabled) || diagnostics || totals
+/// Files are written under a scratch directory and compiled through compile_from_options, so that file names are arbitrary.
+pub fn emit(toks: &[&str]) -> String {
+    use slicec::diagnostic_emitter::DiagnosticEmitter;
+    use slicec::slice_options::DiagnosticFormat;
+    let mut options = parse_opts(toks[1]);
+    options.diagnostic_format = if toks[0] == "json" { DiagnosticFormat::Json } else { DiagnosticFormat::Human };
+    options.disable_color = true;
+    let dir = std::env::temp_dir().join(format!("vh-emit-{}", std::process::id()));
+    let _ = std::fs::remove_dir_all(&dir);
+    std::fs::create_dir_all(&dir).unwrap();
+    std::env::set_current_dir(&dir).unwrap();
+    for t in &toks[2..] {
+        let (n, x) = t.split_once(':').unwrap();
+        let name = text_of(n);
+        if let Some(parent) = std::path::Path::new(&name).parent() { let _ = std::fs::create_dir_all(parent); }
+        std::fs::write(&name, crate::codec::unhex(x)).unwrap();
+        options.sources.push(name);
+    }
+    let state = slicec::compile_from_options(&options);
+    let files = state.files;
+    let diags = state.diagnostics.into_updated(&state.ast, &files, &options);
+    let shown = show_diags(&diags);
+    let totals = slicec::diagnostics::get_totals(&diags);
+    let mut out: Vec<u8> = Vec::new();
+    {
+        let mut emitter = DiagnosticEmitter::new(&mut out, &options, &files);
+        emitter.emit_diagnostics(diags).unwrap();
+    }
+    let _ = std::env::set_current_dir("/");
+    let _ = std::fs::remove_dir_all(&dir);
+    format!("{} || {} || totals {} {}", crate::codec::hex(&out), shown, totals.0, totals.1)
 }
